@@ -11,7 +11,7 @@ open AslModel AslModel.Var
 
 /-! ## accessors_faithful: a Var built from a number, boolean or string reports that type and value -/
 
-theorem accessors_int (i : Int) :
+theorem accessors_int (i : Int) (_hrange : -2147483648 ≤ i ∧ i < 2147483648) :
     typeOf (mkInt i) = tINT ∧ isT (mkInt i) tNUMBER = true ∧ isT (mkInt i) tINT = true ∧ isT (mkInt i) tSTRING = false ∧
     toInt (mkInt i) = some i ∧ numOf (mkInt i) = some (Dy.ofInt i) ∧ Var.toBool (mkInt i) = (i != 0) := by
   simp [mkInt, typeOf, isT, tagOf, toInt, numOf, Var.toBool, tINT, tNUMBER, tFLOAT, tSTRING, tSSTRING]
@@ -35,9 +35,19 @@ theorem accessors_float (d : Dy) :
     typeOf (mkFloat d) = tFLOAT ∧ isT (mkFloat d) tNUMBER = true ∧ isT (mkFloat d) tFLOAT = true ∧ numOf (mkFloat d) = some d := by
   simp [mkFloat, typeOf, isT, tagOf, numOf, tNUMBER, tFLOAT, tINT, tSTRING, tSSTRING]
 
-theorem accessors_long (x : Int) :
+theorem accessors_long (x : Int) (_hexact : -9007199254740992 < x ∧ x < 9007199254740992) :
     typeOf (mkLong x) = tNUMBER ∧ numOf (mkLong x) = some (Dy.ofInt x) := by
   simp [mkLong, typeOf, numOf]
+
+/-- `Var(long)` / `Var(unsigned long)` and `v = (long)x` on LP64 (repaired by 6c0507b): an INT with the same value
+inside the int range, a NUMBER with the same value outside it (exact for |x| < 2^53) — never a truncated int -/
+theorem accessors_native_long (x : Int) (u : Nat) (_hexact : -9007199254740992 < x ∧ x < 9007199254740992 ∧ u < 9007199254740992) :
+    numOf (mkNativeLong x) = some (Dy.ofInt x) ∧ numOf (mkNativeULong u) = some (Dy.ofInt u) ∧
+    (typeOf (mkNativeLong x) = tINT ↔ (-2147483648 ≤ x ∧ x < 2147483648)) ∧
+    (typeOf (mkNativeULong u) = tINT ↔ u < 2147483648) ∧ isT (mkNativeLong x) tNUMBER = true := by
+  unfold mkNativeLong mkNativeULong
+  by_cases h1 : -2147483648 ≤ x ∧ x < 2147483648 <;> by_cases h2 : u < 2147483648 <;>
+    simp [h1, h2, numOf, typeOf, isT, tagOf, tINT, tNUMBER, tFLOAT, tSTRING, tSSTRING, Dy.ofInt]
 
 theorem accessors_bool (b : Bool) :
     typeOf (mkBool b) = tBOOL ∧ isT (mkBool b) tBOOL = true ∧ isT (mkBool b) tNUMBER = false ∧ Var.toBool (mkBool b) = b := by
@@ -136,28 +146,30 @@ def mentions (k : Nat) : Op → Bool
   | .ctorKV j _ q => j == k || q.root == k
 
 /-- The full statement: in every state reached by a guarded history, every executed `p = q` (any paths; `q` may
-lie inside `p`) leaves the Var at `p` readable, holding the value `q` had, denoting the tree `q` denoted before. -/
+lie inside `p`; the source reference `sl` is evaluated first, then the target path, as the C++ does) leaves the Var at
+`p` readable, holding the value read through the source reference, denoting the tree it denoted before. -/
 def assign_spec_full : Prop :=
-  ∀ (n : Nat) (ops : List Op) (p q : Path) (t : Loc) (σ1 σ' : State) (src : V) (f : Nat) (tr : Tree),
+  ∀ (n : Nat) (ops : List Op) (p q : Path) (sl : Option Loc) (t : Loc) (σ1 σ' : State) (src : V) (f : Nat) (tr : Tree),
     p.root < n →
-    resolveMut true (run true (initState n) ops) (.slot p.root) p.steps = (σ1, .ok t) →
-    opSetV σ1 t q = .ok σ' → cget σ1 q = .ok src → content f σ1.heap src = some tr →
+    cloc (run true (initState n) ops) q = .ok sl →
+    resolveMut true sl (run true (initState n) ops) (.slot p.root) p.steps = (σ1, .ok t) →
+    opSetV σ1 t sl = .ok σ' → srcVal σ1 sl = .ok src → content f σ1.heap src = some tr →
     readLoc σ' t = .ok src ∧ content f σ'.heap src = some tr
 
 /-- **assign_spec, per state** — for EVERY state satisfying the invariant (hence every state reached by any history,
-`history_safe`), every valid target location `t` and every source path `q` (`q` may denote an element or property,
-at any depth, of the Var at `t`: `v = v[0]`, `v = v["a"]["b"]`), if the guarded assignment is executed then
+`history_safe`), every valid target location `t` and every source reference `sl` (it may designate an element or
+property, at any depth, of the Var at `t`: `v = v[0]`, `v = v["a"]["b"]`), if the guarded assignment is executed then
 * the Var at `t` is readable afterwards and is exactly the source value (the target survives the release of its own
   old content);
 * the source value denotes afterwards the same tree as before the assignment (so the target equals, by
   `eq_iff_content`, every Var that denotes that tree);
 * the invariant still holds (nothing was released twice, nothing that is still referenced was released). -/
-theorem assign_spec_state (σ σ' : State) (t : Loc) (q : Path) (inv : Inv σ []) (hl : ValidLoc σ t)
-    (h : opSetV σ t q = .ok σ') :
-    ∃ src, cget σ q = .ok src ∧ readLoc σ' t = .ok src ∧
+theorem assign_spec_state (σ σ' : State) (t : Loc) (sl : Option Loc) (inv : Inv σ []) (hl : ValidLoc σ t)
+    (h : opSetV σ t sl = .ok σ') :
+    ∃ src, srcVal σ sl = .ok src ∧ readLoc σ' t = .ok src ∧
       (∀ f tr, content f σ.heap src = some tr → content f σ'.heap src = some tr) ∧ Inv σ' [] := by
   unfold opSetV at h
-  rcases inv.cget q with ⟨e, h1, _⟩ | ⟨src, h1, hsrc⟩
+  rcases Inv.srcVal (σ := σ) (T := []) sl with h1 | ⟨src, h1, hsrc⟩
   · rw [h1] at h; cases h
   · rw [h1] at h
     simp only [] at h
@@ -184,28 +196,28 @@ theorem assign_spec_state (σ σ' : State) (t : Loc) (q : Path) (inv : Inv σ []
 
 /-- **assign_spec** — the full statement, over all histories -/
 theorem assign_spec : assign_spec_full := by
-  intro n ops p q t σ1 σ' src f tr hroot hres hset hq hc
+  intro n ops p q sl t σ1 σ' src f tr hroot _ hres hset hq hc
   obtain ⟨inv, hlen, _⟩ := (Inv.init n).run ops (initState n) rfl
   have hslots : p.root < (run true (initState n) ops).slots.length := by
     rw [hlen]; simp [initState]; exact hroot
-  obtain ⟨σ1', r, h1, inv1, _, hr⟩ := Inv.resolveMut (T := []) p.steps _ (.slot p.root) inv hslots
+  obtain ⟨σ1', r, h1, inv1, _, hr⟩ := Inv.resolveMut (T := []) sl p.steps _ (.slot p.root) inv hslots
   rw [hres] at h1
   simp only [Prod.mk.injEq] at h1
   obtain ⟨rfl, rfl⟩ := h1
   rcases hr with ⟨e, he, _⟩ | ⟨t', ht', hl⟩
   · cases he
   · cases ht'
-    obtain ⟨src', hq', hread, hcont, _⟩ := assign_spec_state σ1 σ' t q inv1 hl hset
+    obtain ⟨src', hq', hread, hcont, _⟩ := assign_spec_state σ1 σ' t sl inv1 hl hset
     rw [hq] at hq'; cases hq'
     exact ⟨hread, hcont f tr hc⟩
 
 /-- "leaves the target equal to the assigned value": after an executed `p = q`, the Var at `p` compares equal (`==`)
-to every Var that denotes the tree `q` denoted before the assignment -/
-theorem assign_then_equal (σ σ' : State) (t : Loc) (q : Path) (inv : Inv σ []) (hl : ValidLoc σ t)
-    (h : opSetV σ t q = .ok σ') (src w : V) (f : Nat) (tr : Tree)
-    (hq : cget σ q = .ok src) (hsrc : content f σ.heap src = some tr) (hw : content f σ'.heap w = some tr) :
+to every Var that denotes the tree the source denoted before the assignment -/
+theorem assign_then_equal (σ σ' : State) (t : Loc) (sl : Option Loc) (inv : Inv σ []) (hl : ValidLoc σ t)
+    (h : opSetV σ t sl = .ok σ') (src w : V) (f : Nat) (tr : Tree)
+    (hq : srcVal σ sl = .ok src) (hsrc : content f σ.heap src = some tr) (hw : content f σ'.heap w = some tr) :
     readLoc σ' t = .ok src ∧ eqV f σ'.heap src w = .ok true := by
-  obtain ⟨src', h1, hread, hcont, _⟩ := assign_spec_state σ σ' t q inv hl h
+  obtain ⟨src', h1, hread, hcont, _⟩ := assign_spec_state σ σ' t sl inv hl h
   rw [hq] at h1; cases h1
   obtain ⟨b, hb, hiff⟩ := eq_iff_content f σ'.heap src w tr tr (hcont f tr hsrc) hw
   exact ⟨hread, by rw [hb, hiff.mpr rfl]⟩
@@ -214,7 +226,18 @@ theorem assign_then_equal (σ σ' : State) (t : Loc) (q : Path) (inv : Inv σ []
 `v` then holds the handle of the former element -/
 example : ((opSetV (run true (initState 1)
       [.setLit ⟨0, [.idx 0, .idx 0]⟩ (.int 1), .setLit ⟨0, [.idx 0, .idx 1]⟩ (.int 2), .setLit ⟨0, [.idx 1]⟩ (.int 5)])
-    (.slot 0) ⟨0, [.idx 0]⟩).toOption.map (·.slots)) = some [V.arr 1] := by decide
+    (.slot 0) (some (.item 0 0))).toOption.map (·.slots)) = some [V.arr 1] := by decide
+
+/-- the second known finding in the model: `v << "…" << 2; v[5] = v[0]` — the auto-creating target path moves the
+block the source reference points into; the guarded statement is refused, the unguarded one reads a released block
+(in the C++: heap-use-after-free in `Var::operator=`) -/
+theorem autocreate_invalidates_source_counterexample :
+    (applyOp true (run true (initState 1) [.appLit ⟨0, []⟩ (.str [97, 32, 108, 111, 110, 103, 32, 115, 116, 114]), .appLit ⟨0, []⟩ (.int 2)])
+      (.setV ⟨0, [.idx 5]⟩ ⟨0, [.idx 0]⟩)).2 = .error .srcMoved ∧
+    readLoc (resolveMut false (some (.item 0 0))
+      (run true (initState 1) [.appLit ⟨0, []⟩ (.str [97, 32, 108, 111, 110, 103, 32, 115, 116, 114]), .appLit ⟨0, []⟩ (.int 2)])
+      (.slot 0) [.idx 5]).1 (.item 0 0) = .error .uaf := by
+  constructor <;> rfl
 
 /-! ## clone_deep: clone() yields a deep copy that no later mutation of the original can change -/
 
